@@ -7,6 +7,7 @@ package tmengine
 // configured that way; a write that is released after the node's process has died is not applied.
 
 import (
+	"bytes"
 	"context"
 	"fmt"
 	"runtime"
@@ -232,7 +233,21 @@ func (s vzRoundStore) OverwriteRoundPrecommitProofs(ctx context.Context, h uint6
 	return s.d.round.OverwriteRoundPrecommitProofs(ctx, h, r, p)
 }
 func (s vzRoundStore) LoadRoundState(ctx context.Context, h uint64, r uint32) ([]tmconsensus.ProposedHeader, tmconsensus.SparseSignatureCollection, tmconsensus.SparseSignatureCollection, error) {
-	return s.d.round.LoadRoundState(ctx, h, r)
+	phs, pv, pc, err := s.d.round.LoadRoundState(ctx, h, r)
+	if len(phs) > 1 {
+		// The in-memory round store returns the proposed headers of a round in map iteration order.
+		// That order is the simulator's to decide: canonical order first, then a seeded rotation.
+		sort.SliceStable(phs, func(i, j int) bool {
+			if c := bytes.Compare(phs[i].Header.Hash, phs[j].Header.Hash); c != 0 {
+				return c < 0
+			}
+			return bytes.Compare(phs[i].Signature, phs[j].Signature) < 0
+		})
+		s.nd.w.s.ParkID(s.nd.ident(), "store", "LoadRoundState:order")
+		k := s.nd.w.s.Choose("ph-load-order", len(phs))
+		phs = append(append([]tmconsensus.ProposedHeader(nil), phs[k:]...), phs[:k]...)
+	}
+	return phs, pv, pc, err
 }
 
 type vzStateMachineStore struct{ vzStores }
